@@ -47,8 +47,13 @@ static void fill_full(mat_t *m, int P, const double complex *e, int rows,
 
 /* relative residual tracker */
 static int dbg_f, dbg_k, dbg_i, dbg_j;
+static long double g_floor;	/* 1e-6 x overall magnitude of the equation */
 static void note(long double *worst, lc_t resid, long double scale)
 {
+    /* a cell whose every term is (rounding noise around) zero is judged
+       against the overall magnitude, not against its own noise */
+    if (scale < g_floor)
+	scale = g_floor;
     long double r = scale > 0 ? cabsl(resid) / scale : cabsl(resid);
     if (vf_verbose && r > 1e-8L)
 	vf_note("  terms: f%d std%d cell(%d,%d) resid %.3Le scale %.3Le",
@@ -80,8 +85,13 @@ int cs_terms_residual(vnacal_t *vcp, int ci, const cs_scenario *sc,
 
     for (int f = 0; f < v->nf; ++f) {
 	double complex e[8 * NS];
-	for (int t = 0; t < calp->cal_error_terms; ++t)
+	long double emax = 0;
+	for (int t = 0; t < calp->cal_error_terms; ++t) {
 	    e[t] = calp->cal_error_term_vector[t][f];
+	    if (cabs(e[t]) > emax)
+		emax = cabs(e[t]);
+	}
+	g_floor = 1e-6L * emax;
 
 	for (int k = 0; k < sc->nstd; ++k) {
 	    cs_c Sd[NS], Md[NS];
